@@ -158,7 +158,12 @@ def run(p, report, tier):
             conv = bool(names_in(v) & ret_idx) and not any((c or "").split(".")[-1] in (
                 "argsort", "sort", "argmax", "argmin", "nanargmax", "nanargmin", "argpartition", "lexsort", "sorted") for c in calls) \
                 and not ((names_in(v) - ret_idx - {"np", "numpy"}) & {a.arg for a in sb.node.args.args[:1]})
-            okv = alloc or sel or conv or (isinstance(v, ast.Name) and v.id in ret_idx)
+            # a winner bound to a local first (`w = rand_argmax(...); idx[i] = w`)
+            via_name = isinstance(v, ast.Name) and any(
+                isinstance(d, ast.Assign) and any(isinstance(t, ast.Name) and t.id == v.id for t in d.targets)
+                and any(isinstance(c, ast.Call) and c01.is_selection_call(c) for c in ast.walk(d.value))
+                for d in ast.walk(sb.node))
+            okv = alloc or sel or conv or via_name or (isinstance(v, ast.Name) and v.id in ret_idx)
             report.add("R18.2", "simple_batch", f"returned indices `{norm_stmt(n, 60)}` come from a selection primitive",
                        f"{sb.file}:{n.lineno}", okv, detail="allocation / rand_argmax / choice / index conversion" if okv else
                        "the indices are computed by sorting / reducing the NaN-marked utilities directly: NaN entries are "
